@@ -110,6 +110,13 @@ func negotiator(f func(*Session, *StreamConfig) StreamConfig) Negotiator {
 		// For more information see the internal/wskey package.
 		wsCtx := ctx.Value(wskey.Key{})
 		websocket := wsCtx != nil
+		if websocket {
+			// The key is put on the context by websocket.Negotiator, so the
+			// context that NewSession itself was given does not carry it: tell
+			// the session which framing its streams use, or the established
+			// session would read (and take the peer's <close/>) as if over TCP.
+			s.ws = true
+		}
 
 		c := s.Conn()
 		// If the session is not already using a tee conn, but we're configured to
